@@ -2,8 +2,10 @@
 (* Trace validation for the PAN-OS family (C03, C07, C08, C10, C16).        *)
 EXTENDS Panos, Merge, Json, IOUtils, SequencesExt
 
-VARIABLES l, i0, errl, nchg, foreign
-tvars == <<l, i0, errl, nchg, foreign>>
+VARIABLES l, i0, errl, nchg, foreign,
+          cur,      \* the vsys whose candidate configuration is loaded in the variables of Panos.tla
+          other     \* the candidate configuration of the other vsys (vsys2 / vsys1)
+tvars == <<l, i0, errl, nchg, foreign, cur, other>>
 Trace  == ndJsonDeserialize(IOEnv.TRACE)
 Ev     == Trace[l + 1]
 LastEv == Trace[l]
@@ -12,6 +14,7 @@ D0     == I0.dev
 \* merge cases on a non-empty vsys carry the expected effective target (parts.merged)
 HasMerged == "parts" \in DOMAIN I0.tgt /\ "merged" \in DOMAIN I0.tgt.parts
 T      == IF HasMerged THEN I0.tgt.parts.merged ELSE I0.tgt
+Targeted == {"vsys1"} \cup (IF "v2" \in DOMAIN I0.tgt THEN {"vsys2"} ELSE {})
 
 RuleOf(j) == [name |-> j.name, action |-> j.action, src |-> ToSet(j.src), dst |-> ToSet(j.dst),
               svc |-> ToSet(j.svc), extra |-> j.extra]
@@ -21,11 +24,22 @@ GrpOf(j)   == [n \in DOMAIN j.groups |-> ToSet(j.groups[n])]
 SvcOf(j)   == [n \in DOMAIN j.svcs |-> j.svcs[n]]
 SGrpOf(j)  == [n \in DOMAIN j.sgroups |-> ToSet(j.sgroups[n])]
 
+\* a second vsys is optional in the JSON of a configuration
+StOf(j) == [rules |-> RulesOf(j), addr |-> AddrOf(j), grp |-> GrpOf(j), svc |-> SvcOf(j), sgrp |-> SGrpOf(j)]
+EmptySt == [rules |-> <<>>, addr |-> <<>>, grp |-> <<>>, svc |-> <<>>, sgrp |-> <<>>]
+St == [rules |-> rules, addr |-> addr, grp |-> grp, svc |-> svc, sgrp |-> sgrp]
+OtherOf(j) == IF "v2" \in DOMAIN j THEN StOf(j.v2) ELSE EmptySt
+Load(s) == rules' = s.rules /\ addr' = s.addr /\ grp' = s.grp /\ svc' = s.svc /\ sgrp' = s.sgrp
+\* the script turns to the other vsys (or, at a resume, back to vsys1)
+Swap(v) == IF v = cur THEN UNCHANGED <<rules, addr, grp, svc, sgrp, other, cur>>
+           ELSE Load(other) /\ other' = St /\ cur' = v
+
 TInit == /\ l = 1 /\ i0 = 1 /\ errl = 0 /\ nchg = 0 /\ foreign = "" /\ Trace[1].ev = "Init"
+         /\ cur = "vsys1" /\ other = OtherOf(Trace[1].dev)
          /\ rules = RulesOf(Trace[1].dev) /\ addr = AddrOf(Trace[1].dev) /\ grp = GrpOf(Trace[1].dev)
          /\ svc = SvcOf(Trace[1].dev) /\ sgrp = SGrpOf(Trace[1].dev) /\ err = ""
 
-IsChange(e) == e.ev \notin {"Init", "Resume", "Done"}
+IsChange(e) == e.ev \notin {"Init", "Resume", "Done", "Switch"}
 Dispatch(e) ==
   CASE e.ev = "SetRule"        -> SetRule(RuleOf(e.rule))
     [] e.ev = "SetRuleList"    -> SetRuleList(e.name, e.f, ToSet(e.members))
@@ -41,7 +55,8 @@ Dispatch(e) ==
     [] e.ev = "DelGroupMember" -> DelGroupMember(e.name, e.member)
     [] e.ev = "SetSGroup"      -> SetSGroup(e.name, ToSet(e.members))
     [] e.ev = "DelObj"         -> DelObj(e.kind, e.name)
-    [] e.ev = "Resume"         -> Resume
+    [] e.ev = "Resume"         -> UNCHANGED err
+    [] e.ev = "Switch"         -> UNCHANGED err
     [] e.ev = "Done"           -> UNCHANGED dvars
 
 TNext ==
@@ -51,12 +66,16 @@ TNext ==
      THEN /\ rules' = RulesOf(Ev.dev) /\ addr' = AddrOf(Ev.dev) /\ grp' = GrpOf(Ev.dev)
           /\ svc' = SvcOf(Ev.dev) /\ sgrp' = SGrpOf(Ev.dev) /\ err' = ""
           /\ i0' = l + 1 /\ errl' = 0 /\ nchg' = 0 /\ foreign' = ""
+          /\ cur' = "vsys1" /\ other' = OtherOf(Ev.dev)
      ELSE /\ Dispatch(Ev)
+          /\ CASE Ev.ev = "Switch" -> Swap(Ev.vsys)
+               [] Ev.ev = "Resume" -> Swap("vsys1")
+               [] OTHER -> UNCHANGED <<cur, other>>
           /\ i0' = i0
           /\ errl' = IF err = "" /\ err' # "" THEN l + 1 ELSE errl
           /\ nchg' = IF IsChange(Ev) THEN nchg + 1 ELSE nchg
           \* C07: every command must address the targeted vsys
-          /\ foreign' = IF IsChange(Ev) /\ foreign = "" /\ Ev.vsys # "vsys1" THEN Ev.vsys ELSE foreign
+          /\ foreign' = IF IsChange(Ev) /\ foreign = "" /\ Ev.vsys \notin Targeted THEN Ev.vsys ELSE foreign
 TSpec == TInit /\ [][TNext]_<<dvars, tvars>>
 
 -----------------------------------------------------------------------------
@@ -71,8 +90,14 @@ ExpRule(r, a, g, s, sg) == [action |-> r.action, src |-> ExpAddrs(r.src, a, g), 
                             svc |-> ExpSvcs(r.svc, s, sg), extra |-> r.extra]
 ExpRules(rs, a, g, s, sg) == [i \in DOMAIN rs |-> ExpRule(rs[i], a, g, s, sg)]
 
-Equivalent == ExpRules(rules, addr, grp, svc, sgrp)
-              = ExpRules(RulesOf(T), AddrOf(T), GrpOf(T), SvcOf(T), SGrpOf(T))
+S1 == IF cur = "vsys1" THEN St ELSE other          \* candidate configuration of vsys1 / vsys2
+S2 == IF cur = "vsys1" THEN other ELSE St
+EquivSt(s, j) == ExpRules(s.rules, s.addr, s.grp, s.svc, s.sgrp)
+                 = ExpRules(RulesOf(j), AddrOf(j), GrpOf(j), SvcOf(j), SGrpOf(j))
+Equivalent == /\ EquivSt(S1, T)
+              /\ ("v2" \in DOMAIN T => EquivSt(S2, T.v2))
+\* a vsys the target does not mention is left exactly as it was (C07)
+OtherUntouched == "v2" \in DOMAIN T \/ S2 = OtherOf(D0)
 
 \* C18: the rulebase the script built on the empty vsys is the effective (merged) target
 IsMerge == "parts" \in DOMAIN I0.tgt
@@ -86,7 +111,7 @@ KF_AppendBehindDeny ==
   /\ \A r \in Rng(PartOf(I0.tgt.parts.pre)), n \in Rng(PartOf(I0.tgt.parts.v4)) \cup Rng(PartOf(I0.tgt.parts.v6)) : Pos(ToM(rules), r) < Pos(ToM(rules), n)
   /\ \A a \in Rng(PartOf(I0.tgt.parts.app)), n \in Rng(PartOf(I0.tgt.parts.v4)) \cup Rng(PartOf(I0.tgt.parts.v6)) : Pos(ToM(rules), n) < Pos(ToM(rules), a)
 
-Post(j) == rules = RulesOf(j) /\ addr = AddrOf(j) /\ grp = GrpOf(j) /\ svc = SvcOf(j) /\ sgrp = SGrpOf(j)
+Post(j) == S1 = StOf(j) /\ ("v2" \in DOMAIN j => S2 = StOf(j.v2))
 Chk(ok, tag, detail, kf) == ok \/ PrintT(<<"VERR", LastEv.t, l, tag, detail, kf>>)
 
 \* Known finding 11: `set` on the member list of an existing service-group adds members, the
@@ -102,6 +127,7 @@ KFKey == IF KF_SGroupShrink THEN "PanosServiceGroupShrink" ELSE IF KF_GroupNever
 Mon ==
   /\ Chk(~(err # "" /\ errl = l), "C08", err, KFKey)
   /\ Chk(foreign = "" \/ LastEv.ev = "Init", "C07", "command addresses a vsys outside the target: " \o foreign, "")
+  /\ Chk(LastEv.ev = "Init" \/ OtherUntouched, "C07", "a vsys outside the target was changed", "")
   /\ Chk(LastEv.ev \in {"Resume", "Done"} => Post(LastEv.post), "HARNESS", "post state of replica differs", "")
   /\ Chk(LastEv.ev = "Done" /\ HasMerged => Equivalent, "C18", "rulebase is not raw, Netspoc, APPEND", "")
   /\ Chk(LastEv.ev = "Done" /\ IsMerge /\ ~HasMerged => MergeOK, "C18", IF IsMerge THEN MergeWhy ELSE "",
